@@ -36,6 +36,9 @@ func report(eng *Engine, root, prop, tier string, seed int, results []*FuncResul
 	for _, fr := range results {
 		if fr.Status != "ok" {
 			engineProblems = append(engineProblems, fmt.Sprintf("%s: %s: %s", fr.Fn, fr.Status, firstLine(fr.Err)))
+			if os.Getenv("GOVC_TRACE") != "" {
+				fmt.Fprintln(os.Stderr, fr.Err)
+			}
 		}
 	}
 	seenKnown := map[string]bool{}
